@@ -1278,6 +1278,12 @@ std::string Generator::GeneratorImpl::generateCode(const AnalyserEquationAstPtr 
 
     std::string code;
 
+    // Note: an operand may be missing (e.g., an empty piecewise element).
+
+    if (ast == nullptr) {
+        return code;
+    }
+
     switch (ast->type()) {
     case AnalyserEquationAst::Type::EQUALITY:
         code = generateOperatorCode(mProfile->equalityString(), ast);
@@ -1613,7 +1619,7 @@ std::string Generator::GeneratorImpl::generateCode(const AnalyserEquationAstPtr 
 
         break;
     case AnalyserEquationAst::Type::CI:
-        code = generateVariableNameCode(ast->variable(), ast->parent()->type() != AnalyserEquationAst::Type::DIFF);
+        code = generateVariableNameCode(ast->variable(), (ast->parent() == nullptr) || (ast->parent()->type() != AnalyserEquationAst::Type::DIFF));
 
         break;
     case AnalyserEquationAst::Type::CN:
